@@ -14,7 +14,7 @@ import (
 //     html/template is far outside what the engine interprets, so both calls are declared unsupported: inside a package
 //     initialiser that yields a poison value which is harmless unless a path later uses it (DESIGN 3.2).
 //   - (*diceware.Generator).MustGenerate(n) = n arbitrary words (the hostname generator of GenerateHostname; math/rand and
-//     crypto/rand sources are "arbitrary values" in DESIGN 3.2). A word is 1..2 arbitrary lower-case letters.
+//     crypto/rand sources are "arbitrary values" in DESIGN 3.2). A word is one arbitrary lower-case letter.
 
 func init() {
 	RegisterExt(func(m map[string]Intrinsic) {
